@@ -52,6 +52,7 @@ def harness_cfg(c):
         "npre": c.get("NPre", 0), "npost": c.get("NPost", 0), "npc": c.get("NPc", 0),
         "async_pre": c.get("AsyncPre", []), "async_post": c.get("AsyncPost", []), "async_pc": c.get("AsyncPc", []),
         "has_runtime": bool(c.get("HasRuntime", True)),
+        "unwind_drops": bool(c.get("UnwindDrops", False)),
     }
 
 
